@@ -582,7 +582,8 @@ class Vstack(Linop):
         device = backend.get_device(input)
         xp = device.xp
         with device:
-            output = xp.empty(self.oshape, dtype=input.dtype)
+            outputs = [linop(input) for linop in self.linops]
+            output = xp.empty(self.oshape, dtype=xp.result_type(*outputs))
             for n, linop in enumerate(self.linops):
                 if n == 0:
                     start = 0
@@ -595,7 +596,7 @@ class Vstack(Linop):
                     end = self.indices[n]
 
                 if self.axis is None:
-                    output[start:end] = linop(input).ravel()
+                    output[start:end] = outputs[n].ravel()
                 else:
                     ndim = len(linop.oshape)
                     axis = self.axis % ndim
@@ -604,7 +605,7 @@ class Vstack(Linop):
                         + [slice(start, end)]
                         + [slice(None)] * (ndim - axis - 1)
                     )
-                    output[slc] = linop(input)
+                    output[slc] = outputs[n]
 
         return output
 
@@ -648,7 +649,7 @@ class Diag(Linop):
         device = backend.get_device(input)
         xp = device.xp
         with device:
-            output = xp.empty(self.oshape, dtype=input.dtype)
+            output = None
             for n, linop in enumerate(self.linops):
                 if n == 0:
                     istart = 0
@@ -676,6 +677,11 @@ class Diag(Linop):
                     )
 
                     output_n = linop(input[islc])
+
+                if output is None:
+                    output = xp.empty(self.oshape, dtype=output_n.dtype)
+                elif output.dtype != xp.result_type(output, output_n):
+                    output = output.astype(xp.result_type(output, output_n))
 
                 if self.oaxis is None:
                     output[ostart:oend] = output_n.ravel()
